@@ -171,14 +171,14 @@ def observe(ex, data):
 
 def generate(tier, seed):
     cases = []
-    n_enum_rounds = 1 if tier == "quick" else 40
+    n_enum_rounds = 1 if tier == "quick" else 150
     for r in range(n_enum_rounds):
         for fi, form in enumerate(FORMS):
             cases.append({"kind": "enum", "form": form, "round": r})
-    n_rand = 40 if tier == "quick" else 1200
+    n_rand = 40 if tier == "quick" else 6000
     for k in range(n_rand):
         cases.append({"kind": "rand", "k": k, "n": 500})
-    for k in range(16 if tier == "quick" else 300):
+    for k in range(16 if tier == "quick" else 1500):
         cases.append({"kind": "disk", "k": k})
     return cases
 
